@@ -5,6 +5,22 @@ ROOT = os.path.join(os.path.dirname(os.path.abspath(__file__)), '..', 'seeded')
 NEEDS = {
  'C01_1': "a default-order layout of signature S used first, then a layout with the same S and a different blade order (two steps, one process)",
  'C01_2': "float or complex operands with coefficients of magnitude <= 1e-12 (e.g. products scaled by 2^-45)",
+ 'C01_3': "a signature with two or more zeros (two different null basis vectors multiplied)",
+ 'C01_4': "a signature passed as an integer ndarray which the caller modifies afterwards (before or after the first product)",
+ 'C02_3': "two layouts with the same signature and different blade storage orders, both using a graded product in one process",
+ 'C02_4': "left contraction with a left operand of higher grade than the right one, sharing a basis vector (r > s >= 1)",
+ 'C03_3': "two layouts of equal signature and different storage order whose kernels are generated in one process",
+ 'C03_4': "grade selection given as a set / frozenset container in the grade-restricted kernels",
+ 'C04_3': "a degenerate signature without negative entries (e.g. Cl(3,0,1)) and a component on a blade containing the null vector",
+ 'C04_4': "dimension >= 9 and a component on a blade containing e9 or a higher basis vector",
+ 'C05_3': "a well-conditioned, non-versor multivector in <= 5 dimensions with coefficients below ~3e-3",
+ 'C05_4': "an integer-dtype multivector raised to a negative power",
+ 'C06_3': "a custom-order layout whose complement is used first, then a default-order layout of the same dimension",
+ 'C06_4': "a degenerate signature given explicitly whose first entry is non-zero (e.g. [1, 1, 1, 0])",
+ 'C07_3': "a custom blade order whose grade-1 blades are not stored in id order, with a mixed or degenerate signature",
+ 'C07_4': "indexing M[blade] with a key blade of negative weight (-e12, e2*e1, ~e12)",
+ 'C08_3': "conformalisation of a base algebra with at least one negative basis vector",
+ 'C08_4': "a conformal point with weight 0 < |s| <= 1e-6 passed to homo / down",
  'C15_1': "a DualFlat in conformalised Cl(4) (pseudoscalar squares to +1)",
  'C15_2': "Tangent(E, p) with grade(E) >= 1 and a location with a component inside the direction",
  'C16_1': "mixed signature and a non-blade argument whose reverse-norm nearly cancels with coefficients above ~3",
